@@ -463,6 +463,36 @@ def act_roundtrip(a):
         return out
     out["nonplain"] = plain_problems(e)
     out["e"] = jsonable(e)
+    if hasattr(o, "additional_keys"):
+        # the mapping interface over undeclared properties must show exactly what to_dict() encodes for them
+        try:
+            keys = o.additional_keys
+            keys = list(keys() if callable(keys) else keys)
+            prob = None
+            if sorted(map(str, keys)) != sorted(map(str, o.additional_properties)):
+                prob = f"additional_keys() {sorted(map(str, keys))[:5]} != additional_properties keys {sorted(map(str, o.additional_properties))[:5]}"
+            for k in keys:
+                if prob:
+                    break
+                if k not in o:
+                    prob = f"{k!r} in additional_keys() but `in` says no"
+                    break
+                v = o[k]
+                if v is not o.additional_properties[k]:
+                    prob = f"o[{k!r}] is not additional_properties[{k!r}]"
+                    break
+                del o[k]
+                if k in o:
+                    prob = f"{k!r} still present after del"
+                    break
+                o[k] = v
+            if not prob and keys:
+                e3 = o.to_dict()
+                if json.dumps(jsonable(e3), sort_keys=True) != json.dumps(out["e"], sort_keys=True):
+                    prob = "to_dict() differs after deleting and re-adding every additional property through the mapping interface"
+            out["addl_iface"] = {"keys": len(keys), "problem": prob}
+        except BaseException as ex:
+            out["addl_iface"] = {"keys": -1, "problem": f"{type(ex).__name__}: {str(ex)[:150]}"}
     try:
         o2 = cls.from_dict(e)
         out["eq2"] = bool(o2 == o)
@@ -558,8 +588,18 @@ def make_client(spec, captured, is_async):
         for k in ("token", "prefix", "auth_header_name"):
             if k in cs:
                 kw[k] = cs[k]
-        return cm.AuthenticatedClient(**kw)
-    return cm.Client(**kw)
+        c = cm.AuthenticatedClient(**kw)
+    else:
+        c = cm.Client(**kw)
+    for kind, arg in cs.get("derive", []):
+        if kind == "touch":
+            # the underlying httpx client already exists when the derived client is made
+            (c.get_async_httpx_client if is_async else c.get_httpx_client)()
+        elif kind == "with_timeout":
+            c = c.with_timeout(httpx.Timeout(arg))
+        else:
+            c = getattr(c, kind)(arg)
+    return c
 
 
 def response_desc(r):
@@ -585,8 +625,12 @@ def act_call(a):
             client = make_client(a, captured, is_async)
             kwargs = {k: build(v) for k, v in a.get("args", {}).items()}
             pos = [build(v) for v in a.get("pos", [])]
+            use_ctx = bool((a.get("client") or {}).get("context"))
             if is_async:
                 async def run():
+                    if use_ctx:
+                        async with client as c_:
+                            return await fn(*pos, client=c_, **kwargs)
                     try:
                         return await fn(*pos, client=client, **kwargs)
                     finally:
@@ -595,6 +639,9 @@ def act_call(a):
                         except Exception:
                             pass
                 r = asyncio.run(run())
+            elif use_ctx:
+                with client as c_:
+                    r = fn(*pos, client=c_, **kwargs)
             else:
                 r = fn(*pos, client=client, **kwargs)
             res["result"] = response_desc(r)
@@ -640,6 +687,117 @@ def act_getattr(a):
     return {"value": desc(getattr(m, a["name"], None)), "has": hasattr(m, a["name"])}
 
 
+# ------------------------------------------------------------------ M-GENCOV (which generated lines the actions executed)
+GCOV = {"on": False, "lines": set()}
+_GTOOL = 4
+_KEEP = set(__import__("keyword").kwlist) | {"isinstance", "list", "dict", "str", "int", "float", "bool", "bytes", "tuple", "None", "True", "False", "cast", "Unset", "UNSET", "File", "isoparse", "Union", "Any",
+                                                 "self", "cls", "d", "field_dict", "append", "items", "pop", "get", "update", "to_dict", "from_dict", "to_tuple", "to_multipart", "isoformat", "date", "datetime", "UUID", "json",
+                                                 "response", "status_code", "content", "text", "BytesIO", "client", "kwargs", "_kwargs", "headers", "params", "cookies", "body", "files", "data", "TypeError", "ValueError",
+                                                 "additional_properties", "Literal", "HTTPStatus", "errors", "UnexpectedStatus", "Response", "parsed", "raise_on_unexpected_status", "encode", "dumps", "Optional"}
+
+
+def _gcov_setup():
+    mon = sys.monitoring
+    try:
+        mon.use_tool_id(_GTOOL, "vf-gencov")
+    except ValueError:
+        pass
+
+    def on_start(code, off):
+        root = STATE["root"]
+        if root and code.co_filename.startswith(root):
+            try:
+                mon.set_local_events(_GTOOL, code, mon.events.LINE)
+            except Exception:
+                pass
+        return mon.DISABLE
+
+    def on_line(code, line):
+        GCOV["lines"].add((code.co_filename, line))
+        return mon.DISABLE
+
+    mon.register_callback(_GTOOL, mon.events.PY_START, on_start)
+    mon.register_callback(_GTOOL, mon.events.LINE, on_line)
+    mon.set_events(_GTOOL, mon.events.PY_START)
+    GCOV["on"] = True
+
+
+def _shape(line):
+    """Identifier-free spelling of a generated source line: names outside a fixed template vocabulary -> N, strings -> S, numbers -> 0."""
+    import tokenize
+    out = []
+    try:
+        for tok in tokenize.generate_tokens(io.StringIO(line.strip() + "\n").readline):
+            if tok.type == tokenize.NAME:
+                out.append(tok.string if tok.string in _KEEP else "N")
+            elif tok.type == tokenize.STRING:
+                out.append("S")
+            elif tok.type == tokenize.NUMBER:
+                out.append("0")
+            elif tok.type == tokenize.OP:
+                out.append(tok.string)
+    except Exception:
+        return None
+    sh = " ".join(out)
+    while "N . N" in sh:
+        sh = sh.replace("N . N", "N")
+    return sh[:160]
+
+
+def gencov_report():
+    """Per (artefact kind, function): statement lines of generated function bodies executed / present, and the line
+    shapes executed / not executed (so that a run can tell which generated code forms it never drove)."""
+    root = STATE["root"]
+    by_file = {}
+    for f, ln in GCOV["lines"]:
+        if f.startswith(root):
+            by_file.setdefault(f, set()).add(ln)
+    funcs, hit_shapes, miss_shapes = {}, {}, {}
+    pkgroot = os.path.join(root, STATE["pkg"])
+    for dp, dn, fns in os.walk(pkgroot):
+        for fn in fns:
+            if not fn.endswith(".py"):
+                continue
+            full = os.path.join(dp, fn)
+            rel = os.path.relpath(full, pkgroot)
+            kind = "model" if rel.startswith("models" + os.sep) else "endpoint" if rel.startswith("api" + os.sep) else rel[:-3]
+            if fn == "__init__.py":
+                continue
+            try:
+                src = open(full, encoding="utf-8").read()
+                tree = ast.parse(src)
+            except Exception:
+                continue
+            lines = src.splitlines()
+            hits = by_file.get(full, set())
+            for node in ast.walk(tree):
+                if not isinstance(node, (ast.FunctionDef, ast.AsyncFunctionDef)):
+                    continue
+                stm = set()
+                for n in ast.walk(node):
+                    if isinstance(n, ast.stmt) and n is not node and not isinstance(n, (ast.Import, ast.ImportFrom, ast.FunctionDef, ast.AsyncFunctionDef)):
+                        if isinstance(n, ast.Expr) and isinstance(n.value, ast.Constant) and isinstance(n.value.value, str):
+                            continue
+                        stm.add(n.lineno)
+                if not stm:
+                    continue
+                fname = "check_*" if node.name.startswith("check_") else "_parse_response_*" if node.name.startswith("_parse_response_") else "_parse_*" if node.name.startswith("_parse_") and node.name != "_parse_response" else node.name
+                key = f"{kind}.{fname}" if kind in ("model", "endpoint") or node.name in ("to_tuple", "with_headers", "with_cookies", "with_timeout", "get_httpx_client", "get_async_httpx_client", "__enter__", "__aenter__") else f"{kind}.*"
+                c = funcs.setdefault(key, [0, 0, 0])
+                h = stm & hits
+                c[0] += len(h)
+                c[1] += len(stm)
+                c[2] += 1 if h else 0
+                if kind in ("model", "endpoint"):
+                    for ln in stm:
+                        sh = _shape(lines[ln - 1]) if ln - 1 < len(lines) else None
+                        if sh:
+                            tgt = hit_shapes if ln in hits else miss_shapes
+                            k2 = f"{kind}.{fname}: {sh}"
+                            tgt[k2] = tgt.get(k2, 0) + 1
+    return {"funcs": funcs, "hit_shapes": hit_shapes, "miss_shapes": miss_shapes}
+
+
 ACTIONS = {"import_all": act_import_all, "model_info": act_model_info, "roundtrip": act_roundtrip, "construct": act_construct,
            "enum_info": act_enum_info, "endpoint_info": act_endpoint_info, "call": act_call, "get_kwargs": act_get_kwargs, "getattr": act_getattr}
 
@@ -651,6 +809,14 @@ def handle(cmd):
     if root not in sys.path:
         sys.path.insert(0, root)
     STATE.update(pkg=cmd["pkg"], root=root, foreign=[], exec=[], active=True)
+    if cmd.get("gencov"):
+        try:
+            if not GCOV["on"]:
+                _gcov_setup()
+            GCOV["lines"] = set()
+            sys.monitoring.restart_events()
+        except Exception:
+            pass
     results = []
     try:
         for a in cmd["actions"]:
@@ -664,6 +830,11 @@ def handle(cmd):
     finally:
         STATE["active"] = False
     out = {"results": results, "foreign_imports": STATE["foreign"], "exec_events": STATE["exec"]}
+    if cmd.get("gencov") and GCOV["on"]:
+        try:
+            out["gencov"] = gencov_report()
+        except Exception as ex:
+            out["gencov"] = {"error": f"{type(ex).__name__}: {ex}"}
     if cmd.get("forget", True):
         for k in [k for k in sys.modules if k == cmd["pkg"] or k.startswith(cmd["pkg"] + ".")]:
             del sys.modules[k]
